@@ -600,8 +600,9 @@ func (e *Engine) splitHyp(h *smt.Term, out *[]*smt.Term) {
 	}
 }
 
-// versionedArrs: the fresh (non-input) symbols of t, memoized per term. Relevance of
-// hypotheses is connectivity to the goal through these symbols.
+// versionedArrs: the fresh (non-input) array symbols of t, memoized per term. A
+// hypothesis is dropped only if it mentions an array version that is dead: not in the
+// state at the obligation, not in the goal, and not linked to a live one by a hypothesis.
 func (e *Engine) versionedArrs(t *smt.Term) []*smt.Term {
 	if r, ok := e.vaMemo[t]; ok {
 		return r
@@ -611,7 +612,7 @@ func (e *Engine) versionedArrs(t *smt.Term) []*smt.Term {
 		n := t.Name
 		base := strings.HasPrefix(n, "in$") || strings.HasPrefix(n, "heap$") || strings.HasPrefix(n, "mem$") || strings.HasPrefix(n, "g$") ||
 			strings.HasPrefix(n, "str$") || strings.HasPrefix(n, "pure$") || strings.HasPrefix(n, "gaddr$")
-		if !base {
+		if !base && t.Sort.K == smt.KArr {
 			out = []*smt.Term{t}
 		}
 	} else {
@@ -646,7 +647,7 @@ func smallSize(t *smt.Term, limit int) int {
 	return n
 }
 
-func (e *Engine) relevant(hyps []*smt.Term, goal *smt.Term, extra []*smt.Term) []*smt.Term {
+func (e *Engine) relevant(hyps []*smt.Term, goal *smt.Term, extra []*smt.Term, stateLive []*smt.Term) []*smt.Term {
 	// connectivity through fresh symbols; hypotheses over input symbols only are kept
 	arrVars := func(t *smt.Term) map[*smt.Term]bool {
 		out := map[*smt.Term]bool{}
@@ -660,6 +661,9 @@ func (e *Engine) relevant(hyps []*smt.Term, goal *smt.Term, extra []*smt.Term) [
 		for v := range arrVars(x) {
 			live[v] = true
 		}
+	}
+	for _, v := range stateLive {
+		live[v] = true
 	}
 	hv := make([]map[*smt.Term]bool, len(hyps))
 	for i, h := range hyps {
@@ -942,11 +946,11 @@ func (e *Engine) Discharge(obs []*Obligation, opts DischargeOpts) {
 			if os.Getenv("GVC_DEBUG") != "" && strings.Contains(ob.Name, os.Getenv("GVC_DEBUG")) {
 				fmt.Fprintf(os.Stderr, "DEBUG %s #%d goal before: %s\n", ob.Name, ob.Ord, e.C.Show(sg.goal))
 			}
+			hy0 = e.relevant(hy0, sg.goal, sg.hyps, ob.LiveArrs)
 			hy0, sg.goal = e.propagate(hy0, sg.goal)
 			if os.Getenv("GVC_DEBUG") != "" && strings.Contains(ob.Name, os.Getenv("GVC_DEBUG")) {
 				fmt.Fprintf(os.Stderr, "DEBUG %s #%d goal after: %s\n", ob.Name, ob.Ord, e.C.Show(sg.goal))
 			}
-			hy0 = e.relevant(hy0, sg.goal, sg.hyps)
 			cases = append(cases, e.caseSplit(hy0, sg.goal, sk)...)
 		}
 		for _, sg := range cases {
